@@ -58,3 +58,40 @@ head, tail = s.split('//@GENERATED-FOLDS', 1)
 rest = tail[tail.index('//@END-GENERATED-FOLDS'):]
 open(p, 'w').write(head + '//@GENERATED-FOLDS\n' + '\n'.join(out2) + '\n' + rest)
 print(len(out), len(out2))
+
+# ---- lazy logic operators
+def gen_lazy():
+    out3 = []
+    def pats(n):
+        # digit: 0 Err, 1 New, 2 Raw. Keep it small: every Err/Ok pattern with Ok alternating New/Raw
+        res = []
+        for mask in range(1 << n):
+            digits = []
+            for i in range(n):
+                ok = (mask >> i) & 1
+                digits.append(0 if not ok else (1 if i % 2 == 0 else 2))
+            # an Err after an earlier Err is never reached: keep only patterns with at most one Err, all-later Ok
+            if digits.count(0) <= 1:
+                res.append(digits)
+        return res
+    for op, body, fn in [('or', 'body_or', 'or'), ('and', 'body_and', 'and'), ('if', 'body_if', 'if_')]:
+        for n in range(0, 6):
+            if op != 'if' and n == 0:
+                continue
+            for digits in pats(n):
+                pat = sum(d * 3 ** i for i, d in enumerate(digits))
+                label = ''.join('ENR'[d] for d in digits) or 'none'
+                efirst = (0 in digits and digits.index(0) < n - 1)
+                tier = 'quick' if ((n <= 2 or (n == 3 and 0 not in digits)) and not efirst) else 'thorough'
+                grp = 'heavy' if efirst else 'medium'
+                h = 'k_c05_%s_%d_%s' % (op, n, label)
+                out3.append('    //@ob name=C05.%s.%d.%s harness=%s props=C05,C04 tier=%s strength=bounded bound="%d operands; outcome pattern %s (E=error, N=new value, R=raw value); truthiness of every value symbolic" fns=op::logic::%s stubs=4 timeout=300 cutdrop=1 group=%s' % (op, n, label, h, tier, n, label, fn, grp))
+                out3.append('    //@ desc="%s over %d operands: result (the deciding operand\'s value itself, or error/null) and the exact evaluation log (which operands, in which order, each at most once, against the outer data) equal the spec; the parser is applied to rule text only; the decision is by truthy"' % (op, n))
+                out3.append('    lazy_harness!(%s, %d, %d, %s);' % (h, n, pat, body))
+    p = os.path.join(VERIF, 'kani', 'op__logic.rs')
+    s = open(p).read()
+    head, tail = s.split('//@GENERATED-LAZY', 1)
+    rest = tail[tail.index('//@END-GENERATED-LAZY'):]
+    open(p, 'w').write(head + '//@GENERATED-LAZY\n' + '\n'.join(out3) + '\n' + rest)
+    print('lazy', len(out3) // 3)
+gen_lazy()
